@@ -8,7 +8,8 @@ Monitors
   bed.format         fields12, strand-symbol, block-count, first-start-0, starts-ascending, span, coords (one evaluation each)
   bed.thick          coding: start <= thickStart <= thickEnd <= end; non-coding: thick range empty (see latitude)
   bed.decode-blocks  decoded absolute blocks == chromosome blocks (chromosome mode) / chromosome blocks - chunk start
-                     (chunk-relative mode); start/end columns == first start / last end of those blocks
+                     (chunk-relative mode); start/end columns == first start / last end of those blocks; containing
+                     windows: chunk-relative blocks == blocks of the same object's chromosome-mode record - chunk start
   bed.decode-strand  strand column == strand symbol of the interval
   bed.decode-name    name column == str(attribute value) when `name` names an attribute, else the literal
   bed.decode-cds     coding: (thickStart, thickEnd) == CDS bounds in the coordinates of the mode
@@ -35,7 +36,9 @@ Latitude (written down so that nobody mistakes it for coverage)
     docstring announces NoSuchAncestorException, the code answers in chromosome coordinates; both are accepted.
   * chrom column in chunk-relative mode: sequence_name or the chunk id are both accepted; with sequence_name=None any
     token is accepted ("None" is pinned upstream).
-  * Adjacent exons (gap 0): a merged block is accepted (covered positions compared instead of the block list).
+  * Adjacent exons (gap 0): against the SPEC a merged block is accepted (covered positions compared instead of the block
+    list), but the two records of one object must agree: on a window containing the interval the chunk-relative record
+    carries exactly the blocks of the chromosome-mode record shifted (mirrored on a minus chunk) into chunk coordinates.
   * `name` never contains tab/newline (BED has no escaping); attribute names used: the identifiers of the class, guid,
     name, id; an attribute whose value is None is rendered "None" (pinned upstream).
 """
@@ -285,6 +288,7 @@ def _one_parent(case, ctx, blocks, window, pidx):
     names = TX_NAMES if cls == "tx" else FT_NAMES
     name_arg, want_name = _expected_name(obj, case, names[(case["name0"] + pidx) % len(names)])
     rgb = tuple(case["rgb"])
+    chrom_export_blocks = None  # blocks decoded from this object's chromosome-mode record
     for chrom_mode in (True, False):
         mode = "chromosome" if chrom_mode else "chunk-relative"
         if chrom_mode or not chunk:
@@ -355,6 +359,15 @@ def _one_parent(case, ctx, blocks, window, pidx):
             ctx.check("bed.decode-blocks", ok, key=key, window=window, text=text, got=got, want=want_blocks,
                       decoded_if_starts_were_taken_from_chromosome_start=[(want_blocks[0][0] + s - s0, want_blocks[0][0] + e - s0)
                                                                           for s, e in want_blocks] if want_blocks else None)
+        if chrom_mode:
+            chrom_export_blocks = [tuple(b) for b in rec["blocks"]]
+        elif containing and chrom_export_blocks is not None:
+            # same object, same interval: the chunk-relative record must carry, block for block, the blocks of the
+            # chromosome-mode record moved into chunk coordinates (no merged-block latitude between the two modes)
+            same = _chunk_blocks(chrom_export_blocks, window) if chunk else chrom_export_blocks
+            got = [tuple(b) for b in rec["blocks"]]
+            ctx.check("bed.decode-blocks", got == same, key=("same-blocks-as-chromosome-export",) + key, window=window, text=text,
+                      got=got, chromosome_export_in_chunk_coordinates=same)
         want_strands = {strand}
         if minus_chunk and not chrom_mode:
             want_strands.add({"+": "-", "-": "+", ".": "."}[strand])
